@@ -5,6 +5,7 @@ fallback that `ldr / str Rt, [Xn, #off]` takes when the scaled form cannot hold 
 judged `full` over the database forms - all registers, all offsets, every table row of the kind.
 -/
 import AsmjitVerif.Props.C02Wide
+import AsmjitVerif.Model.A64AsmConv
 namespace AsmjitVerif.C02
 open AsmjitVerif.A64 AsmjitVerif.A64Asm AsmjitVerif.A64Spec AsmjitVerif.Gen.A64Tables
 
@@ -194,5 +195,110 @@ theorem ldSt_fallback_eq (d : BaseLdStRow) (o0 : Reg) (mo : Operand) (m : MemVie
   cases instTable[d.u_alt_inst_id]? with
   | none => rfl
   | some r => cases baseRM_SImm9[r.idx]? <;> rfl
+
+/-! ### the same memory operand behind a SIMD scalar register: kEncodingSimdLdurStur (ldur / stur  Bt|Ht|St|Dt|Qt, [Xn|SP, #simm9]),
+which is also the fallback of the SIMD `ldr / str` (kEncodingSimdLdSt) -/
+
+def isMemOffFormV (f : Form) (rt : Nat) (n0 : String) (opcx : BitVec 32) : Bool :=
+  f.ops == [.vscalar rt n0, .memOff "Rn" "offS" true 1 .fixed] &&
+  f.fields.filter (·.name == n0) == [⟨n0, [⟨0, 0, 5⟩]⟩] &&
+  f.fields.filter (·.name == "Rn") == [⟨"Rn", [⟨5, 0, 5⟩]⟩] &&
+  f.fields.filter (·.name == "offS") == [⟨"offS", [⟨12, 0, 9⟩]⟩] &&
+  fieldWidth f.fields "offS" == 9 &&
+  f.freeFields.isEmpty && decide (f.mask < 2 ^ 32) && decide (f.value < 2 ^ 32) &&
+  (BitVec.ofNat 32 f.mask &&& 0x001FF3FF#32 == 0#32) && (opcx &&& BitVec.ofNat 32 f.mask == BitVec.ofNat 32 f.value)
+
+theorem memoff_describes_v (f : Form) (rt : Nat) (n0 : String) (opcx : BitVec 32) (o0 : Reg) (m : Mem) (pc : BitVec 64)
+    (hf : isMemOffFormV f rt n0 opcx = true) (hc : opcx &&& 0x001FF3FF#32 = 0#32)
+    (h0 : o0.rt = rt ∧ o0.et = 0 ∧ o0.hasIdx = false ∧ o0.id ≤ 31) (hm : MemOffOk m) :
+    describes f [.reg o0, .mem m] pc
+      (opcx ||| ((m.off &&& 0x1FF#32) <<< 12) ||| (BitVec.ofNat 32 (o0.id % 32) <<< 0) ||| (BitVec.ofNat 32 (m.baseId % 32) <<< 5)) = true := by
+  simp only [isMemOffFormV, Bool.and_eq_true, beq_iff_eq, decide_eq_true_eq] at hf
+  obtain ⟨⟨⟨⟨⟨⟨⟨⟨⟨hops, hR0⟩, hRn⟩, hOf⟩, hwid⟩, _hfree⟩, hmlt⟩, hvlt⟩, hmk⟩, hv⟩ := hf
+  obtain ⟨k1, k2, k3, k4⟩ := memoff_fields opcx m.off (BitVec.ofNat 32 (o0.id % 32)) (BitVec.ofNat 32 (m.baseId % 32))
+    (BitVec.ofNat 32 f.mask) (BitVec.ofNat 32 f.value) hc hmk hv (ofNat_mod32_ult _) (ofNat_mod32_ult _)
+  generalize hw' : (opcx ||| ((m.off &&& 0x1FF#32) <<< 12) ||| (BitVec.ofNat 32 (o0.id % 32) <<< 0) ||| (BitVec.ofNat 32 (m.baseId % 32) <<< 5)) = w at *
+  have t : w.toNat &&& f.mask = f.value := by
+    rw [toNat_and_mask w f.mask hmlt, k1]; simp [BitVec.toNat_ofNat, Nat.mod_eq_of_lt hvlt]
+  have f0 : (w.toNat >>> 0) % 2 ^ 5 = o0.id % 32 := by rw [toNat_field, k2, ofNat_mod32_toNat]
+  have f5 : (w.toNat >>> 5) % 2 ^ 5 = m.baseId % 32 := by rw [toNat_field, k3, ofNat_mod32_toNat]
+  have f12 : (w.toNat >>> 12) % 2 ^ 9 = (m.off &&& 0x1FF#32).toNat := by
+    rw [toNat_fieldN w 12 9 (by decide), show (BitVec.ofNat 32 (2 ^ 9 - 1)) = 511#32 from rfl, k4]
+  have g0 := ctx_get_single f.fields w.toNat pc f.name n0 0 hR0
+  have g5 := ctx_get_single f.fields w.toNat pc f.name "Rn" 5 hRn
+  have g12 := ctx_get_one f.fields w.toNat pc f.name "offS" 12 9 hOf
+  rw [f0] at g0; rw [f5] at g5; rw [f12] at g12
+  obtain ⟨a1, a2, a3, a4⟩ := h0
+  have hid : o0.id % 32 = o0.id := Nat.mod_eq_of_lt (by omega)
+  rw [hid] at g0
+  have m0 : matchOp { fields := f.fields, w := w.toNat, pc := pc, name := f.name } (.vscalar rt n0) [.reg o0, .mem m] = some [.mem m] := by
+    simp [matchOp, a1, a2, a3, g0]; omega
+  have m1 := matchOp_memOff { fields := f.fields, w := w.toNat, pc := pc, name := f.name } m [] hm hwid g12 g5
+  simp only [describes, Form.matchesTemplate, t, hops, matchOps, m0, m1]
+  simp
+
+def simdLdurRowOk (name : String) (d : SimdLdurSturRow) : Bool :=
+  name != "mov" &&
+  [0, 1, 2, 3, 4].all fun sz =>
+    (let opcx := (w32 d.opcode <<< 10) ||| addImm (sz % 4) 30 ||| addImm (sz / 4) 23
+     (opcx &&& 0x001FF3FF#32 == 0#32) && (formsNamed name).any fun f => ["Vd", "Vs", "Vt"].any fun n0 => isMemOffFormV f (rtVec8 + sz) n0 opcx)
+
+set_option maxRecDepth 1000000 in
+theorem rows_simdLdurStur_have_forms :
+    instTable.toList.all (fun r => r.enc != encSimdLdurStur ||
+      (match simdLdurStur[r.idx]? with
+       | some d => simdLdurRowOk r.name d
+       | none => false)) = true := by decide +kernel
+
+theorem simdLdurStur_accepts_facts (d : SimdLdurSturRow) (o0 : Reg) (m : Mem) (ws : List (BitVec 32))
+    (h : emitSimdLdurStur d o0 (viewOf m) = .ok ws) :
+    u32sub o0.rt rtVec8 ≤ 4 ∧ o0.et = 0 ∧ o0.hasIdx = false ∧ o0.id ≤ 31 ∧ MemOffOk m ∧
+    ws = [(w32 d.opcode <<< 10) ||| addImm (u32sub o0.rt rtVec8 % 4) 30 ||| addImm (u32sub o0.rt rtVec8 / 4) 23 |||
+          ((m.off &&& 0x1FF#32) <<< 12) ||| addReg o0.id 0 ||| addReg m.baseId 5] := by
+  unfold emitSimdLdurStur at h
+  simp only [viewOf] at h
+  repeat (split at h <;> try (simp [invalidInstruction, invalidPhysId, invalidAddress, invalidDisplacement] at h))
+  all_goals (
+    unfold tailMemBase at h
+    split at h
+    · simp [invalidAddress] at h
+    · simp [ok1] at h
+      simp_all [MemOffOk, checkMemBase, MemView.hasBaseReg, MemView.hasIndex, hasEtOrIdx]
+      try omega)
+
+/-- **End-to-end, kEncodingSimdLdurStur** -/
+theorem simdLdurStur_end_to_end (r : InstRow) (hr : r ∈ instTable.toList) (henc : r.enc = encSimdLdurStur)
+    (d : SimdLdurSturRow) (hd : simdLdurStur[r.idx]? = some d) (o0 : Reg) (m : Mem) (hrt : o0.rt < 32)
+    (ws : List (BitVec 32)) (pc : BitVec 64) (h : emitSimdLdurStur d o0 (viewOf m) = .ok ws) :
+    judge (formsNamed r.name) r.name [.reg o0, .mem m] pc (.ok ws) = .full := by
+  have hrow := (List.all_eq_true.mp rows_simdLdurStur_have_forms) r hr
+  simp only [henc, bne_self_eq_false, Bool.false_or, hd] at hrow
+  obtain ⟨hsz, het, hidx, hid, hmo, hws⟩ := simdLdurStur_accepts_facts d o0 m ws h
+  simp only [simdLdurRowOk, Bool.and_eq_true] at hrow
+  obtain ⟨_, hall⟩ := hrow
+  have hrtv : o0.rt = rtVec8 + u32sub o0.rt rtVec8 := by
+    unfold u32sub rtVec8 at *; omega
+  have hmem : u32sub o0.rt rtVec8 ∈ [0, 1, 2, 3, 4] := by
+    have : u32sub o0.rt rtVec8 = 0 ∨ u32sub o0.rt rtVec8 = 1 ∨ u32sub o0.rt rtVec8 = 2 ∨ u32sub o0.rt rtVec8 = 3 ∨ u32sub o0.rt rtVec8 = 4 := by omega
+    rcases this with a | a | a | a | a <;> simp [a]
+  have hcombo := (List.all_eq_true.mp hall) _ hmem
+  simp only [Bool.and_eq_true, beq_iff_eq] at hcombo
+  obtain ⟨hclean, hany⟩ := hcombo
+  rw [List.any_eq_true] at hany
+  obtain ⟨f, hfmem, hn⟩ := hany
+  rw [List.any_eq_true] at hn
+  obtain ⟨n0, _, hform⟩ := hn
+  have hdesc := memoff_describes_v f _ n0 _ o0 m pc hform hclean ⟨hrtv, het, hidx, hid⟩ hmo
+  have hfull : f.isPartial = false := by
+    simp only [isMemOffFormV, Bool.and_eq_true, beq_iff_eq] at hform
+    obtain ⟨⟨⟨⟨⟨⟨⟨⟨⟨hops, _⟩, _⟩, _⟩, _⟩, hfree⟩, _⟩, _⟩, _⟩, _⟩ := hform
+    simp [Form.isPartial, hops, OpSpec.isPartial, hfree]
+  subst hws
+  apply judge_full_of_any
+  · intro rr v pp hc; simp at hc
+  · rw [List.any_eq_true]
+    refine ⟨f, hfmem, ?_⟩
+    simp only [hfull, Bool.not_false, Bool.true_and]
+    simpa [addReg, addImm] using hdesc
 
 end AsmjitVerif.C02
